@@ -41,6 +41,8 @@ def shards(tier, seed):
 		dict(name='annotated-list-strids', path='list', nsig=8, size=30, comp=None, ids='str'),
 		dict(name='annotated-list-empty-meta', path='list', nsig=4, size=30, comp=None, ids='str', meta='empties'),
 		dict(name='wrapped-array-none-meta', path='wrapped-array', nsig=4, size=30, comp=None, meta='nones'),
+		dict(name='file-to-file-copy', path='list', nsig=9, size=40, comp=None, ids='str', source='file'),
+		dict(name='file-to-file-copy-gzip', path='list', nsig=9, size=40, comp='gzip', source='file'),
 		dict(name='medium-list', path='list', nsig=120, size=400, comp=None),
 		dict(name='medium-array-gzip', path='array', nsig=120, size=400, comp='gzip'),
 		dict(name='large-list-8MB', path='list', nsig=500, size=2000, comp=None, dt='u8'),
@@ -99,6 +101,12 @@ def build_payload(p):
 		ids, meta, obj = list(range(len(sigs))), SignaturesMeta(), base
 	else:
 		obj = AnnotatedSignatures(base, ids, meta)
+	if p.get('source') == 'file':
+		# the collection being written is itself a signature file on disk (file -> file copy, e.g. re-compressing a database)
+		from gambit.sigs.base import dump_signatures, load_signatures
+		src = os.path.join(p['_workdir'], f'source-{p["name"]}.gs')
+		dump_signatures(src, obj)
+		obj = load_signatures(src)
 	_CACHE[p['name']] = (obj, sigs, ks, ids, meta)
 	return _CACHE[p['name']]
 
@@ -298,6 +306,7 @@ def run_calls(sh, ctx):
 	p = sh['payload']
 	rng = random.Random(f'C19-{ctx.seed}-{sh["name"]}')
 	path = ctx.workdir / 'w.gs'
+	p['_workdir'] = str(ctx.workdir)
 	build_payload(p)
 	st, total = forked_write(p, path, -1, 'before')
 	if st != 'completed' or not total:
